@@ -213,6 +213,11 @@ def run_one(args):
         # without adj-rib-out, API routes are not kept: only the configured routes are promised, minus later withdraws
         exp = {k: v for k, v in want.items() if k in configured}
         got = {k: v for k, v in final.items() if k in configured or k not in want}
+        # ... and nothing remembers what the API did to a configured route (withdrawn, other attributes, cleared): such a route as the API left
+        # it or as the configuration has it are both readings of "the configured routes"
+        for k, v in configured.items():
+            if want.get(k) != v and final.get(k) is not None and final[k][0] == v[0] and (v[1] is None or final[k][1] == v[1]):
+                exp[k] = v
         viols += diff(got, exp, 'table-norib')
     # EOR: exactly one per negotiated family, after the routes of the initial batch
     for fam in fams_needed:
